@@ -66,7 +66,7 @@ def features(b):
                     btw.add(x)
             fs.add(("retry", kind, o["appended"], tuple(sorted(btw)), h["status"]))
             fs.add(("nret", kind, nret))
-            fs.add(("fresh", fresh, kind))
+            fs.add(("role", b[0]["role"], kind, o["appended"], "Snapshot" in btw and "Restart" in btw, "Restart" in btw))
         elif a == "Other":
             fs.add(("other", h["appended"], h["saw"]))
     return fs
@@ -120,24 +120,76 @@ def select(behs, rnd, extra):
 
 
 # ------------------------------------------------------------------ programs
-def program(name, b, rnd):
+CONFIG_TOML = """SessionExpiration = "30m0s"
+PostMessageCooloff = "0s"
+[IRC]
+[[IRC.Operators]]
+Name = "op"
+Password = "oppw"
+[[IRC.Services]]
+Password = "svcpw"
+"""
+
+# the role's prelude (last line carries client message id 9 = Retry!PreludeCmid)
+PRELUDE = {
+    "unreg": [],
+    "client": ["NICK alice", "USER alice 0 * :alice"],
+    "oper": ["NICK alice", "USER alice 0 * :alice", "OPER op oppw"],
+    "services": ["PASS :services=svcpw", "SERVER services.rig 1 :Services for the rig",
+                 "NICK ChanServ 1 1 cs h s 0 +o :CS"],
+}
+# concrete lines per role (Retry!LineKinds); {k} = running token number, {d} = a disposable victim
+LINES = {
+    "unreg": {"ping": "PING :tok{k}", "nick": "NICK un{k}", "user": "USER un{k} 0 * :tok{k}", "quit": "QUIT :bye{k}"},
+    "client": {"privmsg": "PRIVMSG bob :tok{k}", "join": "JOIN #ch{k}", "ping": "PING :tok{k}", "nick": "NICK al{k}",
+               "quit": "QUIT :bye{k}"},
+    "oper": {"privmsg": "PRIVMSG bob :tok{k}", "kill": "KILL dsp{d} :tok{k}", "mode": "MODE alice +i", "quit": "QUIT :bye{k}"},
+    "services": {"snick": "NICK Sv{k} 1 1 sv h s 0 +o :tok{k}", "sprivmsg": ":ChanServ PRIVMSG bob :tok{k}",
+                 "sjoin": ":ChanServ JOIN #sv{k}", "skill": ":ChanServ KILL dsp{d} :tok{k}", "squit": "QUIT :bye{k}"},
+}
+QUIT_KIND = {"unreg": "quit", "client": "quit", "oper": "quit", "services": "squit"}
+
+
+class Kinds:
+    """Round-robin choice of the concrete line kind, separately for requests
+    that are retried right away (so that every kind of every role is retried)."""
+
+    def __init__(self):
+        self.n = {}
+        self.retried = set()
+
+    def pick(self, role, retried):
+        ks = sorted(k for k in LINES[role] if k != QUIT_KIND[role])
+        key = (role, retried)
+        i = self.n.get(key, 0)
+        self.n[key] = i + 1
+        return ks[i % len(ks)]
+
+
+def program(name, b, rnd, kinds):
     """Rig program for one behaviour. Every model step k maps to the rig step
     tagged {"k": k}."""
-    fresh = b[0]["fresh"]
+    role = b[0]["role"]
     steps = [
+        {"op": "config", "toml": CONFIG_TOML},
         {"op": "create_session", "as": "a"},
         {"op": "create_session", "as": "b"},
         {"op": "create_session", "as": "h"},
         {"op": "post", "session": "b", "data": "NICK bob", "cmid": PRELUDE_NICK},
         {"op": "post", "session": "b", "data": "USER bob 0 * :bob", "cmid": PRELUDE_USER},
     ]
-    if not fresh:
-        steps += [
-            {"op": "post", "session": "a", "data": "NICK alice", "cmid": PRELUDE_NICK},
-            {"op": "post", "session": "a", "data": "USER alice 0 * :alice", "cmid": PRELUDE_USER},
-        ]
-    steps.append({"op": "probe", "tag": {"k": 0, "a": "Init"}})
+    ndisp = 0
+    if role in ("oper", "services"):
+        ndisp = sum(1 for h in b[1:] if h["a"] == "Post") or 1
+        for d in range(1, ndisp + 1):
+            steps += [{"op": "create_session", "as": "d%d" % d},
+                      {"op": "login", "session": "d%d" % d, "nick": "dsp%d" % d}]
+    pre = PRELUDE[role]
+    for n, line in enumerate(pre):
+        steps.append({"op": "post", "session": "a", "data": line, "cmid": PRELUDE_USER - (len(pre) - 1 - n)})
+    steps.append({"op": "probe", "tag": {"k": 0, "a": "Init", "role": role}})
     tok = 0
+    disp = 0
     last_a = None
     snapshots = 0
     for k, h in enumerate(b):
@@ -147,13 +199,13 @@ def program(name, b, rnd):
         tag = {"k": k, "a": a}
         if a == "Post":
             tok += 1
-            if h["t"] == "quit":
-                data = "QUIT :bye%d" % tok
-            elif fresh:
-                data = "PING :tok%d" % tok
-            else:
-                data = "PRIVMSG bob :tok%d" % tok
+            retried = k + 1 < len(b) and b[k + 1]["a"] == "Retry"
+            kind = QUIT_KIND[role] if h["t"] == "quit" else kinds.pick(role, retried)
+            if "{d}" in LINES[role][kind]:
+                disp += 1
+            data = LINES[role][kind].format(k=tok, d=disp)
             last_a = data
+            tag["kind"] = kind
             steps.append({"op": "post", "session": "a", "data": data, "cmid": h["c"], "tag": tag})
         elif a == "Death":
             tok += 1
@@ -242,6 +294,14 @@ def evaluate(ctx, prog, b, recs, trace):
         pre = r.get("pre")
         m1, e1 = markers(post)
         if a == "Init":
+            pa = rig_common.sess(post, "a") or {}
+            role = h["role"]
+            is_role = {"unreg": not pa.get("loggedIn") and not pa.get("server"),
+                       "client": pa.get("loggedIn") and not pa.get("operator") and not pa.get("server"),
+                       "oper": pa.get("loggedIn") and pa.get("operator"),
+                       "services": pa.get("server")}[role]
+            if not is_role:
+                raise vlib.Inconclusive("%s: prelude did not establish role %s: %s" % (name, role, pa))
             trace.append({"ev": "Init", "fresh": h["fresh"], "markers": m1, "exists": e1})
             continue
         if a == "Restarted":
@@ -403,7 +463,8 @@ def run(ctx):
     ctx.cov["behaviours_enumerated"] = len(behs)
     ctx.cov["features_total"] = len(allf)
     ctx.cov["features_replayed"] = len(got)
-    progs = [program("r%04d" % n, b, rnd) for n, b in enumerate(chosen)]
+    kinds = Kinds()
+    progs = [program("r%04d" % n, b, rnd, kinds) for n, b in enumerate(chosen)]
     ctx.log("replaying %d behaviours on the rig" % len(progs))
     res = rig_common.run(ctx, binary, progs, par=6 if ctx.quick else 8, timeout=3000)
     trace = []
